@@ -592,29 +592,31 @@ class IteratorQueue(IterableQueue[_ValueT]):
 
   def get_nowait(self) -> _ValueT:
     """Gets an element from the queue, raises Empty immediately if empty."""
-    self._states_lock.acquire()
-    try:
-      result = self._queue.get_nowait()
-      # Premeptively check if the queue is exhausted to avoid a second call.
-      if self._queue.empty() and self.enqueue_done:
-        self._set_exhausted()
-      return result
-    except (queue.Empty, asyncio.QueueEmpty) as e:
-      # No need to rasie from since these are the actual error.
-      if self._exhausted:
-        raise self.exception or StopIteration(*self.returned)
-      if self.enqueue_done:
-        self._set_exhausted()
-        raise self.exception or StopIteration(*self.returned)
-      raise e
-    except StopIteration as e:
-      raise e
-    except Exception as e:  # pylint: disable=broad-exception-caught
-      e.add_note(f'Exception during dequeueing "{self.name}".')
-      logging.exception('chainable: %s', f'"{self.name}" dequeue failed.')
-      raise e
-    finally:
-      self._states_lock.release()
+    # The dequeue condition is reentrant: get() and get_batch() already hold it.
+    with self._dequeue_lock:
+      self._states_lock.acquire()
+      try:
+        result = self._queue.get_nowait()
+        # Premeptively check if the queue is exhausted to avoid a second call.
+        if self._queue.empty() and self.enqueue_done:
+          self._set_exhausted()
+        return result
+      except (queue.Empty, asyncio.QueueEmpty) as e:
+        # No need to rasie from since these are the actual error.
+        if self._exhausted:
+          raise self.exception or StopIteration(*self.returned)
+        if self.enqueue_done:
+          self._set_exhausted()
+          raise self.exception or StopIteration(*self.returned)
+        raise e
+      except StopIteration as e:
+        raise e
+      except Exception as e:  # pylint: disable=broad-exception-caught
+        e.add_note(f'Exception during dequeueing "{self.name}".')
+        logging.exception('chainable: %s', f'"{self.name}" dequeue failed.')
+        raise e
+      finally:
+        self._states_lock.release()
 
   def get_batch(
       self, max_batch_size: int = 0, *, block: bool = False
